@@ -417,10 +417,10 @@ def deletePELFromPELId(path: str, pelID: str) -> None:
         print("PEL not found")
 
 
-def parseAndPrintPELFile(file_path: str, config: Config, exit_on_error: bool) -> None:
+def parseAndPrintPELFile(file_path: str, config: Config, exit_on_error: bool) -> bool:
     """
     Parses a PEL file and prints the JSON string representation.
-    Returns: None
+    Returns: True if the PEL was parsed and printed, False otherwise.
     """
     try:
         with open(file_path, 'rb') as fd:
@@ -432,8 +432,10 @@ def parseAndPrintPELFile(file_path: str, config: Config, exit_on_error: bool) ->
                     print(json_string)        
                 else:
                     printPELInHexFormat(data)
+                return True
     except Exception as e:
         print(f"Exception: No PEL parsed for {file_path}: {e}", file=sys.stderr)
+    return False
 
 
 def parsePelFromID(path: str, config: Config) -> None:
@@ -881,9 +883,15 @@ def main():
         config.extension = args.extension
 
     if args.file:
-        parseAndPrintPELFile(args.file, config, True)
-        if args.clean:
-            os.remove(args.file)
+        printed = parseAndPrintPELFile(args.file, config, True)
+        if args.clean and printed:
+            # Delete only when the PEL was parsed and completely written out
+            try:
+                sys.stdout.flush()
+                os.remove(args.file)
+            except OSError as e:
+                print(f"Exception: {args.file} not deleted: {e}", file=sys.stderr)
+                sys.exit(1)
         sys.exit(0)
 
     if not inBMC:
